@@ -8,8 +8,9 @@ Clauses (each one is a sentence of the property statement):
   dump-total      obj.as_json(full=f) does not raise                      ("Serialising a loaded tree never fails")
   reload-total    type(obj).from_json(J) does not raise                   ("loading it back yields ... a tree")
   identical-json  reloaded.as_json(full=f) == J, f in {minimal, full}     ("serialises to the identical JSON, in both ... form")
-  equivalent-tree structural walk: kind, name, line span, docstring, labels, parameters, returns, decorators, bases,
-                  attribute value/annotation, alias target_path, module filepath; expressions compared by str()
+  equivalent-tree structural walk: kind, name, line span, docstring (full form: its parsed sections too), labels, parameters,
+                  returns, decorators, bases, attribute value/annotation, alias target_path, module filepath, member order;
+                  expressions compared by str()
   names-resolve   every ExprName of the flat iteration of every expression has the same canonical_path before and
                   after; same for the canonical_path of keyword arguments (`ExprKeyword`)
   minimal-is-enough  the tree reloaded from the minimal dump has the original's full dump (no docstring parser)
@@ -43,7 +44,8 @@ RULE = (
     "dataclasses, functions, overloads, properties, attributes, instance attributes and defs nested in __init__, docstrings in "
     "the style of the selected parser, "
     "imports of every form incl. wildcards and missing modules; every expression slot filled from a recursive generator over "
-    "all 28 node types of _griffe.expressions._node_map) x agent {static, dynamic} x alias resolution {off, default, implicit} x "
+    "all 28 node types of _griffe.expressions._node_map, every Expr dataclass field that has a default exercised with each of its value "
+    "kinds - see the exprfield:* classes) x agent {static, dynamic} x alias resolution {off, default, implicit} x "
     "docstring parser {none, google, numpy, sphinx} x cwd {outside, inside the search path}; plus the 5 fixed built-in modules "
     "under every configuration; plus CLI dump cases (1-2 packages, 3 output modes). Each tree is dumped/reloaded in minimal and "
     "full form. non-trivial = the serialised tree holds >=1 alias and (>=1 expression nested >=2 deep or >=1 object without "
@@ -54,7 +56,7 @@ ASSUMPTIONS = [
     "loading (GriffeLoader.load / resolve_aliases) is trusted; a package that fails to load is skipped and counted (load-error:*)",
     "the importable flavour is really imported by CPython in-process (unique temp dir, sys.modules purged afterwards)",
     "alias resolution never loads external packages (external=False / default None) to keep cases small",
-    "docstring parser options are defaults; `parsed` sections are only compared through the JSON text",
+    "docstring parser options are defaults; parsed sections (kind, title, elements, annotation expressions and their names) are compared in the full form only: the parser is loader configuration, the minimal form re-derives the sections without it",
     "CLI is driven in-process through griffe.main with captured stdout; logging is silenced",
 ]
 BUDGET_S = {"quick": 75.0, "thorough": 1100.0}
@@ -138,27 +140,120 @@ def _canon(node) -> str:
         return f"<raises {type(exc).__name__}>"
 
 
+# (class, field, value kind) triples of expression fields that have a dataclass default, seen while walking the
+# original tree of the current case (filled by _expr, read by roundtrip)
+_FIELDS_SEEN: set = set()
+# triples Griffe's own builder cannot produce: `_build_call` always passes the callee to its keywords, lambda
+# parameters have no annotations
+UNREACHABLE_FIELD_KINDS = {("ExprKeyword", "function", "None"), ("ExprParameter", "annotation", "set")}
+_FIELD_KINDS_CACHE: dict = {}
+
+
+def _value_kind(value, default) -> str:
+    import enum
+
+    if isinstance(default, bool):
+        return str(bool(value))
+    if isinstance(default, enum.Enum):
+        return getattr(value, "name", f"str:{value}")
+    if default is None:
+        return "None" if value is None else "set"
+    return "default" if value == default else "other"
+
+
+def expr_field_kinds() -> dict:
+    """{(class, field): (default, [value kinds])} for every field of every Expr dataclass of the tree under test that
+    has a default, enumerated with dataclasses.fields; the kinds are what the generator has to exercise."""
+    if not _FIELD_KINDS_CACHE:
+        import dataclasses
+        import enum
+
+        from _griffe import expressions
+
+        for name in sorted(dir(expressions)):
+            cls = getattr(expressions, name)
+            if not (isinstance(cls, type) and issubclass(cls, expressions.Expr) and dataclasses.is_dataclass(cls)):
+                continue
+            for f in dataclasses.fields(cls):
+                if f.name == "parent" or f.default is dataclasses.MISSING:
+                    continue
+                d = f.default
+                if isinstance(d, bool):
+                    kinds = ["True", "False"]
+                elif isinstance(d, enum.Enum):
+                    kinds = [m.name for m in type(d)]
+                elif d is None:
+                    kinds = ["None", "set"]
+                else:
+                    kinds = ["default", "other"]
+                _FIELD_KINDS_CACHE[(name, f.name)] = (d, kinds)
+    return _FIELD_KINDS_CACHE
+
+
+def expected_field_labels() -> list[str]:
+    return sorted(
+        f"exprfield:{c}.{f}={k}" for (c, f), (_, kinds) in expr_field_kinds().items() for k in kinds if (c, f, k) not in UNREACHABLE_FIELD_KINDS
+    )
+
+
 def _expr(e):
     from _griffe.expressions import Expr, ExprKeyword, ExprName
 
     if not isinstance(e, Expr):
         return {"str": e if (e is None or isinstance(e, str)) else repr(e)}
+    table = expr_field_kinds()
+    for node in _expr_nodes(e):
+        cname = type(node).__name__
+        for (c, f), (default, _kinds) in table.items():
+            if c == cname:
+                _FIELDS_SEEN.add((c, f, _value_kind(getattr(node, f), default)))
     names = [f"{x.name}->{_canon(x)}" for x in e.iterate(flat=True) if isinstance(x, ExprName)]
     kws = sorted(f"{x.name}=->{_canon(x)}" for x in _expr_nodes(e) if isinstance(x, ExprKeyword))
     return {"str": str(e), "names": names, "keywords": kws}
 
 
-def _doc(d):
+def _doc(d, parsed: bool = False):
     if d is None:
         return None
-    return {"value": d.value, "lineno": d.lineno, "endlineno": d.endlineno}
+    out = {"value": d.value, "lineno": d.lineno, "endlineno": d.endlineno}
+    if parsed:
+        out["parsed"] = _parsed(d)
+    return out
+
+
+def _parsed(d):
+    """Parsed sections of a docstring: kind, title, elements (annotations as expressions, so that their names count)."""
+    try:
+        sections = d.parsed
+    except Exception as exc:  # noqa: BLE001  totality of the parsers is C12; the dump clause reports it here
+        return f"<raises {type(exc).__name__}>"
+
+    def element(e):
+        if hasattr(e, "description"):
+            return {"name": getattr(e, "name", None), "description": e.description, "value": getattr(e, "value", None), "annotation": _expr(e.annotation)}
+        if isinstance(e, (tuple, list)):
+            return [getattr(x, "value", x) for x in e]
+        return e
+
+    return [
+        {"kind": s.kind.value, "title": s.title, "value": [element(e) for e in s.value] if isinstance(s.value, list) else element(s.value)}
+        for s in sections
+    ]
+
+
+def _without_parsed(summary):
+    if isinstance(summary, dict):
+        return {k: _without_parsed(v) for k, v in summary.items() if not (k == "parsed" and "lineno" in summary and "value" in summary)}
+    if isinstance(summary, list):
+        return [_without_parsed(v) for v in summary]
+    return summary
 
 
 def _decorators(obj):
     return [{"value": _expr(d.value), "lineno": d.lineno, "endlineno": d.endlineno} for d in obj.decorators]
 
 
-def summarize(obj) -> dict:
+def summarize(obj, parsed: bool = False) -> dict:
     """JSON-able summary of everything the statement lists; aliases are never dereferenced."""
     if obj.is_alias:
         return {
@@ -174,7 +269,7 @@ def summarize(obj) -> dict:
         "name": obj.name,
         "lineno": obj.lineno,
         "endlineno": obj.endlineno,
-        "docstring": _doc(obj.docstring),
+        "docstring": _doc(obj.docstring, parsed),
         "labels": sorted(obj.labels),
     }
     kind = obj.kind.value
@@ -201,7 +296,7 @@ def summarize(obj) -> dict:
     elif kind == "attribute":
         out["value"] = _expr(obj.value)
         out["annotation"] = _expr(obj.annotation)
-    out["members"] = {name: summarize(member) for name, member in obj.members.items()}
+    out["members"] = {name: summarize(member, parsed) for name, member in obj.members.items()}
     out["member_order"] = list(obj.members)
     return out
 
@@ -323,8 +418,10 @@ def roundtrip(module, root: str | None, parser, forms=(False, True), steer=()) -
     fails: list[Fail] = []
     dumps: dict = {}
     before = None
+    _FIELDS_SEEN.clear()
     try:
-        before = summarize(module)
+        before = summarize(module, parsed=True)
+        dumps["expr_fields"] = sorted(f"{c}.{f}={k}" for c, f, k in _FIELDS_SEEN)
     except Exception as exc:  # noqa: BLE001
         fails.append(Fail("equivalent-tree", f"summary-raises:{type(exc).__name__}", f"walking the original tree raised {exc!r}"))
     cls = type(module)
@@ -369,11 +466,14 @@ def roundtrip(module, root: str | None, parser, forms=(False, True), steer=()) -
                 )
         if before is not None:
             try:
-                after = summarize(again)
+                # parsed docstring sections are data of the full form only (the minimal form re-derives them without
+                # the parser); under the known finding parsed-sections they are not compared at all
+                with_parsed = full and not (parser and "parsed-sections" in steer)
+                after = summarize(again, parsed=with_parsed)
             except Exception as exc:  # noqa: BLE001
                 fails.append(Fail("equivalent-tree", f"{form}:summary-raises:{type(exc).__name__}", f"walking the tree reloaded from the {form} dump raised {exc!r}"))
                 continue
-            fails.extend(_compare_summaries(before, after, form, root))
+            fails.extend(_compare_summaries(before if with_parsed else _without_parsed(before), after, form, root))
     # the tree reloaded from the minimal form serialises to the identical JSON "in both minimal and full form": its full
     # dump must equal the original full dump (docs: "the JSON will only contain the fields required to load it back";
     # tests/test_encoders.py::test_minimal_data_is_enough). Only without a docstring parser: the parser is configuration,
@@ -801,6 +901,7 @@ def describe_with(observed: dict, case):
         for form in ("min", "full"):
             if dumps.get(form) is None:
                 classes.append(f"dump-failed:{form}")
+    classes += [f"exprfield:{label}" for label in dumps.get("expr_fields", ())]
     if not src:
         return None, classes, None
     key = None
@@ -844,6 +945,12 @@ def describe_with(observed: dict, case):
 def run_shard(ctx) -> None:
     from vp.common.harness import run_check
 
+    # every (Expr class, field with a default, value kind) the generator has to exercise shows up in the class histogram
+    # of the evidence, with a count of 0 when it never occurred
+    expected = expected_field_labels()
+    for label in expected:
+        ctx.res.classes[label] += 0
+
     # fixed built-in modules: every configuration, spread over the shards (enumerated, so counted exactly)
     configs = [(m, r, p) for m in BUILTINS for r in (0, 1, 2) for p in PARSERS]
     for i, (m, r, p) in enumerate(configs):
@@ -873,3 +980,6 @@ def run_shard(ctx) -> None:
     for slug in sorted(ctx.known & set(STEERING)):
         ctx.excluded(slug, 0)  # make the slug visible in the evidence even when no case needed steering
     ctx.run_hypothesis(strat, checked, max_examples=ctx.scale(120, 2500), describe=describe, salt=salt)
+    # (shard, triple) pairs that never occurred: 0 in a thorough run means every shard exercised every field value
+    ctx.res.extra["exprfield_kinds_expected"] = f"{len(expected)} (class, field, value-kind) triples from dataclasses.fields; not buildable by Griffe: {sorted(UNREACHABLE_FIELD_KINDS)}"
+    ctx.res.extra["exprfield_kinds_unseen_shard_pairs"] = sum(1 for label in expected if not ctx.res.classes[label])
